@@ -142,6 +142,32 @@ CLAIMED.update({
         note='time itself is measured, never proved; 22 token patterns are outside the proved certificate (partial).',
         technique='Coq polynomial bound on backtracking search of source-translated regexes + model-driven ambiguity search + timing'),
 })
+CLAIMED.update({
+    'C09': dict(cat='proof', design='DESIGN.md §7 C09',
+        text='Theorems: names and keywords are compared after ASCII lower-casing; every escape form of every code point below U+0800 '
+             'decodes to that code point (kernel computation on the model\'s css_unescape over the regenerated escape regexes); a '
+             'committed corpus of 24 selectors x 3 respellings compiles to equal structures in the model. Differential: 4 respellings '
+             'of each generated AST (white space/comments everywhere allowed, every escape form, quote styles, bare identifiers, '
+             'case) must compile to the structure of the canonical spelling, also through the model parser.',
+        note='the unbounded print/parse theorem is not proved (partial).',
+        technique='Coq parser model + kernel-checked escape/corpus facts + respelling differential'),
+    'C10': dict(cat='proof', design='DESIGN.md §7 C10',
+        text='Theorem (kernel computation on the model parser and model escape): for ten shapes of every code point below U+0800 and of '
+             'samples up to U+10FFFF incl. lone surrogates, "#"+escape(s), "."+escape(s)+">b" and "[a="+escape(s)+"]" compile to '
+             'exactly the identifier s (NUL -> U+FFFD) and nothing after it is swallowed; escape is total and non-empty. '
+             'Differential: escape() vs the model on every interesting code point class in every position (thorough: all 0x110000 '
+             'code points), compiled structures with 9 follow contexts, selection on documents with near-miss values.',
+        note='the statement for all strings is not proved (partial).',
+        technique='Coq model of escape + parser, bounded kernel proof + exhaustive differential'),
+    'C20': dict(cat='proof', design='DESIGN.md §7 C20',
+        text='Theorems: pretty() terminates on every string (each regenerated token pattern is non-nullable, fallback branch, progress '
+             'lemma); get_pattern_context\'s line and column equal the specification for every string over {a, LF, CR} up to length 7 '
+             'at every offset (kernel computation). Differential: context function vs model vs specification incl. caret placement; '
+             'every SelectorSyntaxError of a mutated multi-line selector must point inside its pattern and agree with the model '
+             'parser; DEBUG vs no flag (structure and selection, with default-namespace maps); pretty() under an alarm vs model output.',
+        note='the context theorem is bounded (partial); "reproduces the repr up to white space" is checked, not proved.',
+        technique='Coq termination proof + bounded kernel proof + diagnostics differential'),
+})
 NOT_YET = {}
 props = [json.loads(l) for l in open(os.path.join(V, 'properties.jsonl'))]
 checks, na = [], []
